@@ -128,6 +128,7 @@ EdgeQOK(p) == /\ p.w = QEdgeWeight(p.e) /\ p.ep = QEndpoints(p.e)
 
 ObsOK(o) ==
     /\ o.nc = NodeCount /\ o.ec = EdgeCount
+    /\ o.tr = <<NodeCount, EdgeCount, NodeBound, EdgeBound>>        \* visit::{NodeCount, EdgeCount, NodeIndexable, EdgeIndexable}
     /\ o.directed = dir
     /\ o.nodes = NodeRefs /\ o.edges = EdgeRefs
     /\ o.edges_rev = [i \in 1 .. Len(EdgeRefs) |-> EdgeRefs[Len(EdgeRefs) + 1 - i]]           \* DoubleEndedIterator
